@@ -26,7 +26,9 @@ case "$ID" in
 esac
 
 build() {
-  local variant=$1 out=$B/bin/mc-$variant tmp
+  local variant=$1
+  local out=$B/bin/mc-$variant
+  local tmp rc
   tmp=$(mktemp "$B/bin/.mc-$variant.XXXXXX")
   (
     flock 9
